@@ -1,0 +1,37 @@
+//go:build verif
+
+package mdns
+
+import (
+	"net"
+
+	"github.com/enbility/ship-go/api"
+)
+
+// Hooks for the verification harness in /verif. Compiled only with -tags verif.
+
+// VerifSetProvider injects an mDNS provider (instead of Avahi / zeroconf) and the report sink.
+func (m *MdnsManager) VerifSetProvider(p api.MdnsProviderInterface, report api.MdnsReportInterface) {
+	m.mdnsProvider = p
+	m.report = report
+}
+
+// VerifResolve is the resolver callback the providers invoke.
+func (m *MdnsManager) VerifResolve(elements map[string]string, name, host string, addresses []net.IP, port int, remove bool) {
+	m.processMdnsEntry(elements, name, host, addresses, port, remove)
+}
+
+// VerifParseTxt exposes the TXT parser used by the providers.
+func VerifParseTxt(txt []string) map[string]string {
+	return parseTxt(txt)
+}
+
+// VerifEntries returns a copy of the current entries.
+func (m *MdnsManager) VerifEntries() map[string]*api.MdnsEntry {
+	return m.copyMdnsEntries()
+}
+
+// VerifShorten exposes the truncation of descriptive fields.
+func VerifShorten(s string, n int) string {
+	return shortenString(s, n)
+}
